@@ -38,7 +38,8 @@ def prepare(ctx):
 
 vals_st = st.lists(st.sampled_from([0.5, 1.0, 1.5, 2.0, 3.0, 4.0, -1.0, -2.5]), min_size=6, max_size=6)
 obj_st = st.fixed_dictionaries({"kind": st.sampled_from(["A", "A", "V"]), "nvec": st.integers(1, 3),
-                                "dtype": st.sampled_from(DT), "unit": st.sampled_from(UNITS), "vals": vals_st})
+                                "dtype": st.sampled_from(DT), "unit": st.sampled_from(UNITS), "vals": vals_st,
+                                "zero_d": st.sampled_from([False, False, False, False, True])})
 operand_st = st.one_of(
     st.fixed_dictionaries({"t": st.just("pool"), "i": st.integers(0, 30)}),
     st.fixed_dictionaries({"t": st.just("pool"), "i": st.integers(0, 30)}),
@@ -271,7 +272,9 @@ def history(case, r):
     n = case["n"]
     w = World(n)
     for spec in case["pool"]:
-        w.pool.append(_mk_entry(w, spec, n))
+        w.pool.append(_mk_entry(w, spec, n, scalar=bool(spec.get("zero_d"))))
+        if spec.get("zero_d"):
+            r.label("zero_d_pool_object")
     n_shared_updates = 0
     _check_world(w, r, "init")
     for si, op in enumerate(case["ops"]):
@@ -384,8 +387,9 @@ def history(case, r):
                     if tdt.startswith("int"):
                         newraw = np.round(newraw)
                 buf = w.bufs[m.buf]
-                if ydt == "float32" or m.lowp:
-                    w.buf_lowp[m.buf] = True
+                if ydt == "float32" or m.lowp or (yentry is not None and any(
+                        c.lowp or w.buf_lowp.get(c.buf) for c in yentry.comps)):
+                    w.buf_lowp[m.buf] = True      # float32 rounding propagates through later operands
                 if m.sel is None:
                     buf[...] = newraw
                 else:
@@ -447,7 +451,7 @@ def history(case, r):
                     r.label("shared_update")
         elif o == "slice":
             e = w.pool[op["x"] % len(w.pool)]
-            if e.kind != "A" or w.raw(e.comps[0]).ndim != 1:
+            if w.raw(e.comps[0]).ndim != 1:
                 continue
             m = e.comps[0]
             sl = slice(op["a"], op["b"], op["s"])
@@ -461,12 +465,21 @@ def history(case, r):
             except Exception as ex:
                 r.bad(["slice-raises", type(ex).__name__], f"{where}: {ex!r}")
                 break
-            if not np.shares_memory(view._array, e.objs[0]._array):
-                r.bad(["slice-not-a-view"], f"{where}: a[{sl}] does not share memory with a")
+            if any(not np.shares_memory(a._array, b._array) for a, b in zip(_arrays_of(view), _arrays_of(e.objs[0]))):
+                r.bad(["slice-not-a-view", e.kind], f"{where}: x[{sl}] does not share memory with x")
                 break
             # express the selection as a slice of the buffer (composition of slices is a slice)
             step = int(new_idx[1] - new_idx[0]) if len(new_idx) > 1 else 1
             bsel = slice(int(new_idx[0]), int(new_idx[-1]) + 1, step)
+            if e.kind == "V":
+                ne = Entry("V", [MArr(mm.buf, bsel, mm.unit, mm.dtype) for mm in e.comps], [view], full=False)
+                ne.shared = True
+                e.shared = True
+                w.pool.append(ne)
+                r.label("slice")
+                r.label("vector_slice")
+                _check_world(w, r, f"after {where}")
+                continue
             ne = Entry("A", [MArr(m.buf, bsel, m.unit, m.dtype)], [view], full=False)
             ne.shared = True
             e.shared = True
